@@ -10,5 +10,6 @@ CONSTANTS
   MaxTx = 1
   WithTry = FALSE
   WithNoRS = FALSE
+  WithCb = TRUE
 INVARIANTS ImplAgrees
 CHECK_DEADLOCK FALSE
